@@ -176,3 +176,58 @@ Definition scheme_is_file (u : list N) : bool :=
 (* ---------- executable reference of the correspondence run ---------- *)
 (* path -> (URI, path obtained back from the URI) *)
 Definition spec_roundtrip (p : list N) : list N * list N := (spec_uri p, norm p).
+
+(* =====================================================================================
+   Extension: Windows paths, and the expected result of replacing components of a file URI
+   ===================================================================================== *)
+(* Windows: both separators are accepted on input ("normalize to fwd-slashes on windows"), the
+   path that comes back "uses the platform specific path separator".  A drive-absolute path
+   "c:\far\boo" corresponds to the URI path "/c:/far/boo" (tests/test_uris.py). *)
+Definition to_slash (p : list N) : list N := map (fun c => if c =? 92 then 47 else c) p.
+Definition to_backslash (p : list N) : list N := map (fun c => if c =? 47 then 92 else c) p.
+Definition rooted (s : list N) : list N :=
+  match s with c :: _ => if c =? 47 then s else 47 :: s | [] => [47] end.
+(* the path with forward slashes and a leading slash: what the POSIX statement is applied to *)
+Definition win_slashed (p : list N) : list N := rooted (to_slash p).
+Definition win_norm (p : list N) : list N := to_backslash (norm (win_slashed p)).
+Definition win_guard (p : list N) : bool := forallb scalar p && guard (win_slashed p).
+Definition spec_roundtrip_win (p : list N) : list N * list N := (spec_uri (win_slashed p), win_norm p).
+
+(* uri_with on a URI produced from the path p: new path fp (a filesystem path without an
+   authority of its own), optionally a new authority, query and fragment *)
+Definition opt_or (a : option (list N)) (b : list N) : list N :=
+  match a with Some (c :: r) => c :: r | _ => b end.
+Definition with_suffix (query fragment : list N) : list N :=
+  (match query with [] => [] | _ => 63 :: pct_encode keep_path query end) ++
+  (match fragment with [] => [] | _ => 35 :: pct_encode keep_path fragment end).
+(* the new path is a filesystem path: if it carries an authority of its own ("//host/x") that
+   is the authority of the result unless one is given explicitly; otherwise the old one stays *)
+Definition spec_uri_with (p fp : list N) (netloc query fragment : option (list N)) : list N :=
+  let host := match unc_parts (rooted fp) with
+              | Some _ => norm_host (rooted fp)
+              | None => norm_host p
+              end in
+  s_file_scheme ++ [58; 47; 47] ++ pct_encode keep_host (opt_or netloc host) ++
+  encode_path (norm_path (rooted fp)) ++ with_suffix (opt_or query []) (opt_or fragment []).
+(* the class in which uri_with is claimed to do that: the URI comes from a path inside the C18
+   guard, the new path has no authority of its own (finding candidate F29 otherwise), a new
+   authority has no "/" *)
+Definition no_slash (s : list N) : bool := forallb (fun c => negb (c =? 47)) s.
+Definition opt_scalar (a : option (list N)) : bool :=
+  match a with Some x => forallb scalar x | None => true end.
+Definition path_has_authority (fp : list N) : bool :=
+  match unc_parts (rooted fp) with Some _ => true | None => false end.
+Definition with_guard (p fp : list N) (netloc query fragment : option (list N)) : bool :=
+  guard p && forallb scalar fp && negb (path_has_authority fp) &&
+  opt_scalar netloc && no_slash (opt_or netloc []) && opt_scalar query && opt_scalar fragment.
+
+(* the scheme of a URI (RFC 3986 section 3.1: ALPHA *( ALPHA / DIGIT / "+" / "-" / "." ), case-insensitive,
+   canonical form lower case); None when the string does not start with a valid scheme and ":" *)
+Definition valid_scheme (s : list N) : bool :=
+  match s with c0 :: _ => letter c0 | [] => false end &&
+  forallb (fun c => letter c || digit c || (c =? 43) || (c =? 45) || (c =? 46)) s.
+Definition spec_scheme (u : list N) : option (list N) :=
+  match u_scheme (rfc3986_split u) with
+  | Some s => if valid_scheme s then Some (map to_lower s) else None
+  | None => None
+  end.
